@@ -49,6 +49,10 @@ def run(ctx, res):
     res.guard(RR.rule_source_error_path, prog, res)
     res.guard(RR.rule_thread_exit, prog, res)
     res.guard(RR.rule_start_reset, prog, res)
+    # a failed / not yet filled reservation of the source is never published by the filter
+    from .c10 import commit_own
+    res.guard(commit_own, prog, res, prog.func("process_data"), "R-COMMIT-OWN")
+    res.require_min("R-COMMIT-OWN", 2)
     res.require_min("HAL-FAIL-SUMMARY", 2)
     res.require_min("R-SINK-ERROR", 8)
     res.require_min("R-SOURCE-ERROR", 5)
